@@ -280,12 +280,20 @@ def evaluate(prop, batches, marks, rule, thorough_factor=None):
             flagged.append((b, code, tid, line))
     violations = 0
     unreproduced = 0
+    attempts = 0
+    tried = {}
     reported = set()
     kf = [k for k in known_findings() if k.get("status") == "known"]
     for (b, code, tid, line) in sorted(flagged, key=lambda x: (x[1], x[2])):
         p = flag_property(code)
         if (p, code) in reported:
             continue
+        if tried.get((p, code), 0) >= 2:
+            continue
+        tried[(p, code)] = tried.get((p, code), 0) + 1
+        if violations >= 6 or attempts >= 14:
+            break       # enough replays: every further flagged trace is counted in the evidence, not confirmed one by one
+        attempts += 1
         if sum(1 for (pp, _) in reported if pp == p) >= 3:
             continue
         case = load_case(b["dir"], tid)
